@@ -1,7 +1,4 @@
 import DSymVerif.Props.C05
-#print axioms DSymVerif.C05.ex1_valid
-#print axioms DSymVerif.C05.sym1_valid
-#print axioms DSymVerif.C05.swap2_compat
 #print axioms DSymVerif.C05.build_set_of_involution
 #print axioms DSymVerif.C05.build_set_ok_only_involutions
 #print axioms DSymVerif.C05.cover_is_covering
@@ -9,4 +6,7 @@ import DSymVerif.Props.C05
 #print axioms DSymVerif.C05.cover_panics_iff
 #print axioms DSymVerif.C05.cover_zero_sheets_panics
 #print axioms DSymVerif.C05.oriented_cover_covering
+#print axioms DSymVerif.C05.oriented_cover_oriented
+#print axioms DSymVerif.C05.oriented_cover_preserves_degrees
 #print axioms DSymVerif.C05.cover_for_table_compat
+#print axioms DSymVerif.C05.monitors_sound
